@@ -21,7 +21,8 @@
 (* buffer's), Pre = content present before the run, Junk = what reading a       *)
 (* partially written file gives.                                                *)
 (*                                                                             *)
-(* One behaviour = one run of one configuration Cfgs[ci] (frozen):              *)
+(* One behaviour = one run of one configuration cfg (frozen, a member of Cfgs):  *)
+(*   id           a number naming the configuration                             *)
 (*   nupd[p]      number of updates process p performs (0: process absent)      *)
 (*   pos[p][i]    the tile position of p's i-th update                          *)
 (*   reg[p][i]    its pixel region (a sequence of pixels, possibly empty)       *)
@@ -46,7 +47,7 @@ Blank   == [x \in Pixels |-> 0]
 JunkBuf == [x \in Pixels |-> Junk]
 Range(s) == {s[k] : k \in DOMAIN s}
 
-VARIABLES ci,          \* index of the (frozen) configuration
+VARIABLES cfg,         \* the (frozen) configuration
           lock,        \* lock key -> 0 (free: no lock file) or the process that created the lock file
           tile,        \* position -> [st: "absent" | "partial" | "content", px: content]
           pc, upd,     \* per process: control state, index of the update in progress
@@ -54,9 +55,8 @@ VARIABLES ci,          \* index of the (frozen) configuration
           order,       \* history: <<p, i>> in lock-acquisition order
           sawPartial,  \* history: some Read happened on a partially written file
           act          \* history: the last action <<name, process>> (for replay into the real code)
-vars == <<ci, lock, tile, pc, upd, buf, order, sawPartial, act>>
+vars == <<cfg, lock, tile, pc, upd, buf, order, sawPartial, act>>
 
-cfg        == Cfgs[ci]
 PosOf(p, i) == cfg.pos[p][i]
 RegOf(p, i) == Range(cfg.reg[p][i])
 CurPos(p)  == PosOf(p, upd[p])
@@ -71,7 +71,8 @@ Masked(b)  == \A x \in Pixels : b[x] = 0          \* Image.is_completely_masked
 InitPx(t)  == [x \in Pixels |-> IF x \in Range(cfg.init[t]) THEN Pre ELSE 0]
 FileOf(b)  == IF Masked(b) THEN [st |-> "absent", px |-> Blank] ELSE [st |-> "content", px |-> b]
 
-Init == /\ ci \in DOMAIN Cfgs
+InitFor(c) ==
+        /\ cfg = c
         /\ lock = [k \in Keys |-> 0]
         /\ tile = [t \in Poss |-> FileOf(InitPx(t))]
         /\ pc = [p \in Procs |-> IF cfg.nupd[p] > 0 THEN "start" ELSE "done"]
@@ -80,6 +81,7 @@ Init == /\ ci \in DOMAIN Cfgs
         /\ order = <<>>
         /\ sawPartial = FALSE
         /\ act = <<"Init", 0>>
+Init == \E c \in Cfgs : InitFor(c)
 
 \* SoftFileLock._acquire: one attempt to create the lock file exclusively
 TryAcquire(p) ==
@@ -92,7 +94,7 @@ TryAcquire(p) ==
        ELSE /\ pc' = [pc EXCEPT ![p] = "trying"]
             /\ act' = <<"TryFail", p>>
             /\ UNCHANGED <<lock, order>>
-    /\ UNCHANGED <<ci, tile, upd, buf, sawPartial>>
+    /\ UNCHANGED <<cfg, tile, upd, buf, sawPartial>>
 TryOK(p) == TryAcquire(p) /\ pc'[p] = "locked"
 
 \* read_image(pos, default="masked"): a missing file gives an all-masked buffer
@@ -102,7 +104,7 @@ Read(p) ==
     /\ sawPartial' = (sawPartial \/ tile[CurPos(p)].st = "partial")
     /\ pc' = [pc EXCEPT ![p] = "read"]
     /\ act' = <<"Read", p>>
-    /\ UNCHANGED <<ci, lock, tile, upd, order>>
+    /\ UNCHANGED <<cfg, lock, tile, upd, order>>
 
 \* the body of the `with`: image.update_into_maskable_buffer(basis, ...)
 Modify(p) ==
@@ -110,7 +112,7 @@ Modify(p) ==
     /\ buf' = [buf EXCEPT ![p] = Apply(buf[p], RegOf(p, upd[p]), Id(p, upd[p]))]
     /\ pc' = [pc EXCEPT ![p] = "modified"]
     /\ act' = <<"Modify", p>>
-    /\ UNCHANGED <<ci, lock, tile, upd, order, sawPartial>>
+    /\ UNCHANGED <<cfg, lock, tile, upd, order, sawPartial>>
 
 \* write_image: a completely masked buffer unlinks the file (one step); otherwise the file is opened for writing
 WriteBegin(p) ==
@@ -122,14 +124,14 @@ WriteBegin(p) ==
        ELSE /\ tile' = [tile EXCEPT ![CurPos(p)] = [st |-> "partial", px |-> Blank]]
             /\ pc' = [pc EXCEPT ![p] = "writing"]
             /\ act' = <<"WriteBegin", p>>
-    /\ UNCHANGED <<ci, lock, upd, buf, order, sawPartial>>
+    /\ UNCHANGED <<cfg, lock, upd, buf, order, sawPartial>>
 
 WriteEnd(p) ==
     /\ pc[p] = "writing"
     /\ tile' = [tile EXCEPT ![CurPos(p)] = [st |-> "content", px |-> buf[p]]]
     /\ pc' = [pc EXCEPT ![p] = "written"]
     /\ act' = <<"WriteEnd", p>>
-    /\ UNCHANGED <<ci, lock, upd, buf, order, sawPartial>>
+    /\ UNCHANGED <<cfg, lock, upd, buf, order, sawPartial>>
 
 \* SoftFileLock._release: unlink the lock file; then the caller goes on to its next update
 Release(p) ==
@@ -139,7 +141,7 @@ Release(p) ==
        THEN upd' = [upd EXCEPT ![p] = upd[p] + 1] /\ pc' = [pc EXCEPT ![p] = "start"]
        ELSE upd' = upd /\ pc' = [pc EXCEPT ![p] = "done"]
     /\ act' = <<"Release", p>>
-    /\ UNCHANGED <<ci, tile, buf, order, sawPartial>>
+    /\ UNCHANGED <<cfg, tile, buf, order, sawPartial>>
 
 Progress(p) == TryOK(p) \/ Read(p) \/ Modify(p) \/ WriteBegin(p) \/ WriteEnd(p) \/ Release(p)
 Step(p) == TryAcquire(p) \/ Read(p) \/ Modify(p) \/ WriteBegin(p) \/ WriteEnd(p) \/ Release(p)
@@ -153,7 +155,7 @@ FairSpec == Spec /\ Fairness
 InCS(p)  == pc[p] \in {"locked", "read", "modified", "writing", "written"}
 AllDone  == \A p \in Procs : pc[p] = "done"
 
-TypeOK == /\ ci \in DOMAIN Cfgs
+TypeOK == /\ cfg \in Cfgs
           /\ lock \in [Keys -> 0..MaxP]
           /\ \A t \in Poss : tile[t].st \in {"absent", "partial", "content"} /\ tile[t].px \in [Pixels -> 0..Junk]
           /\ pc \in [Procs -> {"start", "trying", "locked", "read", "modified", "writing", "written", "done"}]
